@@ -72,11 +72,14 @@ static inline FillRule fr_of(int64_t v) { return (FillRule)(((v % 4) + 4) % 4); 
 static inline JoinType jt_of(int64_t v) { return (JoinType)(((v % 4) + 4) % 4); }
 static inline EndType et_of(int64_t v) { return (EndType)(((v % 5) + 5) % 5); }
 
-// ------------------------------------------------------------------ harness callbacks (seam S3): pure, no allocation, no throw
+// ------------------------------------------------------------------ harness callbacks (seam S3): pure, no allocation; they throw
+// only when a C12 plan injects it (fault kind 2), and then something that is not a std::exception
+struct HarnessThrow {};
 static inline uint64_t hmix(uint64_t a, uint64_t b) { a ^= b + 0x9E3779B97F4A7C15ull + (a << 6) + (a >> 2); return a * 0xD6E8FEB86659FD93ull; }
 #ifdef USINGZ
 static void zcb64(int kind, const Point64& a, const Point64& b, const Point64& c, const Point64& d, Point64& pt) {
   sim_yield_point(1);
+  if (sim_cb_fault()) throw HarnessThrow();
   if (kind == 1) {
     uint64_t h = 7; h = hmix(h, (uint64_t)a.x); h = hmix(h, (uint64_t)a.y); h = hmix(h, (uint64_t)b.x); h = hmix(h, (uint64_t)b.y);
     h = hmix(h, (uint64_t)c.x); h = hmix(h, (uint64_t)c.y); h = hmix(h, (uint64_t)d.x); h = hmix(h, (uint64_t)d.y);
@@ -86,6 +89,7 @@ static void zcb64(int kind, const Point64& a, const Point64& b, const Point64& c
 }
 static void zcbD(int kind, const PointD& a, const PointD& b, const PointD& c, const PointD& d, PointD& pt) {
   sim_yield_point(1);
+  if (sim_cb_fault()) throw HarnessThrow();
   auto bits = [](double x) { uint64_t u; memcpy(&u, &x, 8); return u; };
   if (kind == 1) {
     uint64_t h = 9; h = hmix(h, bits(a.x)); h = hmix(h, bits(a.y)); h = hmix(h, bits(b.x)); h = hmix(h, bits(b.y));
@@ -106,6 +110,7 @@ static ZCallbackD make_zcbD(int kind) {
 // delta callbacks never read path_normals for one-point paths (a fresh object passes an empty vector there)
 static double dcb(int kind, double base, const Path64& path, size_t curr) {
   sim_yield_point(2);
+  if (sim_cb_fault()) throw HarnessThrow();
   switch (kind) {
     case 1: return base;
     case 2: return base * (double)(1 + (curr % 3)) / 3.0;
@@ -145,6 +150,7 @@ struct Obj {
   bool dup_reuse = false;              // the same container was added twice since the last Clear
   std::string hist;                    // one letter per operation applied to this object (distinct-history measure)
   int sticky_err = 0;                  // error flags raised by rejected input so far (ErrorCode() is documented as cumulative)
+  bool poisoned = false;               // C12 fault histories: an exception escaped from an operation on this object; only Clear() / destruction may follow
 };
 
 } // namespace
@@ -167,7 +173,7 @@ static void destroy_obj(Obj& o, int opidx) {
   Scope sc(opidx);
   delete o.c64; delete o.cd; delete o.off; delete o.rc; delete o.rcl; delete o.cont;
   o.c64 = nullptr; o.cd = nullptr; o.off = nullptr; o.rc = nullptr; o.rcl = nullptr; o.cont = nullptr;
-  o.type = T_NONE;
+  o.type = T_NONE; o.poisoned = false;
 }
 
 static void release_conts(Ctx& c, Obj& o) {
@@ -418,14 +424,14 @@ static void h_c_clear(Ctx& c, const Op& op, int idx, OpResult& r) {
   if (op.o >= 100 && c.task != -1) SKIP(r);
   if (o->type == T_C64) { Scope sc(idx); o->c64->Clear(); }
   else if (o->type == T_CD) { Scope sc(idx); o->cd->Clear(); }
-  else if (o->type == T_OFF) { { Scope sc(idx); o->off->Clear(); } o->groups.clear(); { ++o->n_clear; o->hist += 'C'; } return; }
+  else if (o->type == T_OFF) { { Scope sc(idx); o->off->Clear(); } o->groups.clear(); o->poisoned = false; { ++o->n_clear; o->hist += 'C'; } return; }
   else if (o->type == T_CONT) {
     if (o->users > 0) SKIP(r);                               // still in use by a clipper
     { Scope sc(idx); o->cont->Clear(); }
-    o->batches.clear(); { ++o->n_clear; o->hist += 'C'; } return;
+    o->batches.clear(); o->poisoned = false; { ++o->n_clear; o->hist += 'C'; } return;
   }
   else SKIP(r);
-  o->batches.clear(); release_conts(c, *o); o->dup_reuse = false; { ++o->n_clear; o->hist += 'C'; }
+  o->batches.clear(); release_conts(c, *o); o->dup_reuse = false; o->poisoned = false; { ++o->n_clear; o->hist += 'C'; }
 }
 
 static void fill_junk(Paths64& p) { p.push_back(Path64{Point64(1, 2), Point64(3, 4), Point64(5, 6)}); p.push_back(Path64()); }
@@ -927,12 +933,30 @@ static void exec_one(Ctx& c, int idx, OpResult& r) {
   t->op = -2;                                  // force a fresh per-op allocation index
   Handler fn = find_op(op.kind);
   if (!fn) { r.outcome = 4; return; }
+  if (c.model & 2) {            // C12 fault histories: after an exception escaped, only Clear() and destruction are applied to the object
+    Obj* po = c.get(op.o);
+    if (po && po->poisoned && op.kind != "clear" && op.kind != "del") { r.outcome = 4; return; }
+    if (op.kind == "c_reuse") { Obj* pk = c.get(op.o2); if (pk && pk->poisoned) { r.outcome = 4; return; } }
+  }
   try { fn(c, op, idx, r); }
   catch (const std::bad_alloc&) { r.outcome = 1; }
+  catch (const HarnessThrow&) { r.outcome = 5; }
   catch (const Clipper2Exception& e) { r.outcome = 2; H h; h.str(e.what()); r.digest = h.h; }
   catch (const std::exception& e) { r.outcome = 3; r.detail = e.what(); }
   catch (...) { r.outcome = 3; r.detail = "non-std exception"; }
-  if (t->op == idx) { r.allocs = t->op_allocs; r.nt_allocs = t->op_nt_allocs; }
+  if (t->op == idx) { r.allocs = t->op_allocs; r.nt_allocs = t->op_nt_allocs; r.cbs = t->op_cbs; }
+  if ((c.model & 2) && (r.outcome == 1 || r.outcome == 5)) {
+    Obj* po = c.get(op.o);
+    if (po) {
+      po->poisoned = true;
+      // error flags raised before the exception escaped stay part of what ErrorCode() may report (cumulative-or-reset, as for rejected input)
+      if (po->type == T_CD && po->cd) po->sticky_err |= po->cd->ErrorCode();
+      if (po->type == T_C64 && po->c64) po->sticky_err |= po->c64->ErrorCode();
+      // AddReuseableData may have copied some minima already: the clipper counts as a user of the container until it is cleared
+      if (op.kind == "c_reuse" && op.o2 < 100) { Obj* pk = c.get(op.o2); bool dup = false; for (int sl : po->using_conts) if (sl == op.o2) dup = true;
+        if (pk && pk->type == T_CONT && !dup) { po->using_conts.push_back(op.o2); ++pk->users; } }
+    }
+  }
   H h; h.u(r.digest); h.u((uint64_t)r.outcome); r.digest = h.h;
 }
 
@@ -943,7 +967,7 @@ static void run_ops(Ctx& c, int task) {
     sim_status_op((uint64_t)idx);
     c.out.res.emplace_back();
     exec_one(c, idx, c.out.res.back());
-    if (c.out.res.back().outcome == 1) { c.out.faulted = true; break; }   // after a fault only destruction is promised
+    if (c.out.res.back().outcome == 1 || c.out.res.back().outcome == 5) { c.out.faulted = true; if (!(c.model & 2)) break; }   // after a fault only destruction is promised (C12 fault histories go on: Clear() first)
   }
 }
 
